@@ -225,6 +225,55 @@ def run(chk, facts, info):
     rule_r3(chk, facts)
     rule_r4(chk, facts)
     rule_r5(chk, facts)
+    chk.rule('C09-R8', 'in the data-definition modules a string that went through the character map (TranslateString()) is '
+             'handled by its length from then on: no NUL-terminated string function (strlen, strcpy, strcmp, ...) is '
+             'applied to the translated buffer afterwards - CHARSET may map a character to code 0, which must be emitted, '
+             'not taken for the end of the string', min_instances=3)
+    n8 = 0
+    for un in R5_UNITS + ['asmpars.c', 'asmsub.c']:
+        u = facts.unit(un)
+        for f in u.funcs.values():
+            if f.file != un:
+                continue
+            for b, i, ln, c in f.calls({'TranslateString', 'as_chartrans_xlate_nonz_dynstr'}):
+                if not c[2]:
+                    continue
+                buf = strip(c[2][0])
+                n8 += 1
+                bad = None
+                seen = set()
+                work = [(b, i + 1)]
+                while work and bad is None:
+                    bb, ii = work.pop()
+                    els = f.blocks[bb]['elems']
+                    stop = False
+                    for j in range(ii, len(els)):
+                        ex = els[j][1]
+                        for m in walk_own(ex):
+                            if m[0] == 'call' and callee_name(m) in ('strlen', 'strcpy', 'strcmp', 'strcat', 'strmaxcpy', 'strmaxcat', 'as_strdup', 'strchr') \
+                                    and any(strip(a) == buf for a in m[2]):
+                                bad = (els[j][0], callee_name(m))
+                            if is_assign(m) and m[1] == '=' and strip(m[2]) == buf:
+                                stop = True
+                            if m[0] == 'call' and bad is None and callee_name(m) not in ('PutByte', 'memcpy') and \
+                                    any(strip(a) == buf for a in m[2]) and \
+                                    callee_name(m) not in ('strlen', 'strcpy', 'strcmp', 'strcat', 'strmaxcpy', 'strmaxcat', 'as_strdup', 'strchr'):
+                                stop = True         # the buffer is handed to a function that fills it anew
+                        if bad or stop:
+                            break
+                    if bad or stop:
+                        continue
+                    for t, l in f.succs().get(bb, ()):
+                        if t not in seen:
+                            seen.add(t)
+                            work.append((t, 0))
+                ok = bad is None
+                chk.ob('C09-R8', '%s:%s:%s-after-translate' % (un, f.name, show(buf)[:24]), ok, f.loc(bad[0] if bad else ln),
+                       'length-based after translation' if ok else
+                       '%s(%s) is applied after TranslateString(): a character that CHARSET maps to 0 ends the string, and '
+                       'the bytes from there on are not emitted' % (bad[1], show(buf)))
+    if n8 < 3:
+        raise AnalysisBroken('only %d TranslateString() call sites found' % n8)
     chk.rule('C09-R7', 'in the data-definition modules the range check of a data value is skipped only for values that are '
              'not final yet: a symbol-flag test that decides whether RangeCheck()/ChkRange() runs uses a mask within '
              'FirstPassUnknown | Questionable (a value that merely uses a forward reference is final in the last pass and '
